@@ -30,6 +30,7 @@ RULE = (
     "selection holding their portable look-alike, or next to it in one conjunction; join predicates are also "
     "issued through explicit Join(min_columns/max_columns) objects and Join.partial(is_lhs); a predicate object "
     "already used in a well-formed request is re-used in an ill-formed one. "
+    "  In 40 % of the missing-column edits two columns are missing at once (the tags are hashable but not orderable). "
 )
 ASSUMPTIONS = [
     "expected exception class per edit kind follows the Raises sections of the Relation factory docstrings",
